@@ -152,6 +152,9 @@ Proposed(e) ==
       [] e.ev = "FinishPod" -> IF e.pod \in DOMAIN pods THEN {SetPhaseW(e.pod, "Done")} ELSE {}
       [] e.ev = "KubeletRun" -> IF e.pod \in DOMAIN pods THEN {SetPhaseW(e.pod, "Running")} ELSE {}
       [] e.ev = "DeliverPod" -> IF pevq # <<>> THEN {w \in {DeliverPodW} : e.op = 0 \/ NextMatches(w, e.op, e)} ELSE {}
+      \* the Pool object is deleted through the API (200 if it existed, 404 otherwise); nothing else changes
+      [] e.ev = "DeletePool" -> IF (e.pool \in DOMAIN poolobj) = (e.code = 200) /\ (e.pool \in DOMAIN poolobj) = (e.getcode = 200)
+                                  THEN {[Cur EXCEPT !.poolobj = IF e.pool \in DOMAIN poolobj THEN Del(poolobj, e.pool) ELSE poolobj]} ELSE {}
       [] e.ev = "ScaleSts" -> {[Cur EXCEPT !.sts = Put(sts, e.app, e.replicas)]}
       [] e.ev = "DeleteSts" -> {[Cur EXCEPT !.sts = IF e.app \in DOMAIN sts THEN Del(sts, e.app) ELSE sts]}
       [] e.ev = "ScaleDp" -> {[Cur EXCEPT !.dp = Put(dp, e.app, e.replicas)]}
